@@ -294,7 +294,10 @@ def state_index(ctx):
                    f"default `{mp} = {ast.unparse(d.value)[:60]}` is a position count; the simulator arrays are laid out "
                    "over all allocated modes, so after a deletion the wrong rows are returned", role="default-modes",
                    line=d.stmt.lineno)
-        ctx.require(found, f"{cn}.state has no `modes is None` default any more")
+        if not found:
+            # a default taken under a truthiness test (`if not modes:`) also fires for mode 0 and for an empty request
+            ctx.ob(rule, f.site, False, f"{cn}.state takes its default mode list under no explicit `{mp} is None` test: `state(0)` / "
+                   "`state([])` are answered with ALL modes", role="default-modes", line=f.node.lineno)
         # labels
         lab = [v for v in (ctx.tree.arg_of(n, "mode_names") for n in walk_no_nested(f.node) if isinstance(n, ast.Call))
                if v is not None]
